@@ -42,6 +42,17 @@ func guard(f func()) (panicMsg string) {
 			if r := recover(); r != nil {
 				st := string(debug.Stack())
 				msg = fmt.Sprintf("panic: %v\n%s", r, trimStack(st))
+				if i := strings.Index(st, "panic("); i >= 0 {
+					// the frame right below panic() tells whose code panicked
+					rest := st[i:]
+					if j := strings.Index(rest, "\n"); j >= 0 {
+						rest = rest[j+1:]
+					}
+					lines := strings.SplitN(rest, "\n", 3)
+					if len(lines) >= 2 && strings.Contains(lines[1], "verifharness/fixtures.") {
+						msg += "\n[panic raised by the fixture's own Parseable/Capture code]"
+					}
+				}
 			}
 			done <- msg
 		}()
@@ -86,6 +97,10 @@ func report(t *rapid.T, r *vstat.Run, o outcome, c any) {
 		return
 	}
 	r.NoteFailure(o.msg, o.sig, c)
+	if os.Getenv("VERIF_FUZZ") != "" {
+		// native fuzzing: the worker process is not driven by runProp, save the case right here
+		r.SaveViolation()
+	}
 	if strings.Contains(o.msg, "HANG:") {
 		// a goroutine is still spinning inside the library: shrinking would hang again and again, so the
 		// unshrunk case is saved and the process ends here
@@ -96,6 +111,9 @@ func report(t *rapid.T, r *vstat.Run, o outcome, c any) {
 	}
 	t.Fatalf("%s", o.msg)
 }
+
+// shrinkers: per-property second-stage shrinkers over the structured replay case.
+var shrinkers = map[string]func(f *vstat.Failure) *vstat.Failure{}
 
 // runProp drives prop with rapid, writes the replay file + VIOLATION line on failure and flushes
 // the partial evidence.
@@ -108,6 +126,12 @@ func runProp(t *testing.T, id, rule string, prop func(t *rapid.T, r *vstat.Run))
 	if !ok {
 		r.Freeze()
 		if r.LastFailure() != nil {
+			if sh, has := shrinkers[id]; has {
+				// second shrinking stage: deterministic delta pass over the structured case
+				if smaller := sh(r.LastFailure()); smaller != nil {
+					r.NoteFailure(smaller.Message, smaller.Sig, json.RawMessage(smaller.Case))
+				}
+			}
 			r.SaveViolation()
 		} else {
 			// the property function itself broke (generator/harness bug): never a verdict
@@ -225,4 +249,14 @@ func mustJSON(v any) string {
 		return fmt.Sprintf("%#v", v)
 	}
 	return string(b)
+}
+
+// fuzzProp adapts a rapid property for go test -fuzz (coverage-guided): the fuzzer's bytes drive rapid's
+// generators, so the same structured cases and oracles are explored under coverage feedback.
+func fuzzProp(f *testing.F, id string, prop func(t *rapid.T, r *vstat.Run)) {
+	r := vstat.For(id)
+	for _, seed := range [][]byte{{}, {1, 2, 3, 4, 5, 6, 7, 8}, []byte("participle-verif-seed-corpus-entry-0123456789abcdefghijklmnopqrstuvwxyz")} {
+		f.Add(seed)
+	}
+	f.Fuzz(rapid.MakeFuzz(func(t *rapid.T) { prop(t, r) }))
 }
